@@ -16,8 +16,8 @@ import (
 
 func init() {
 	addBreakers("C36",
-		Breaker{Name: "trigger-local-volumes-as-bigint", File: "internal/storage/bucket/migrations/11-make-stateless/up.sql",
-			Old: "create or replace function set_effective_volumes()\n\treturns trigger\n\tsecurity definer\n\tlanguage plpgsql\nas\n$$\nbegin", New: "create or replace function set_effective_volumes()\n\treturns trigger\n\tsecurity definer\n\tlanguage plpgsql\nas\n$$\ndeclare\n\tprevious_inputs bigint;\nbegin", Expect: "NUM/sql-function-types"},
+		Breaker{Name: "trigger-volumes-cast-to-bigint", File: "internal/storage/bucket/migrations/11-make-stateless/up.sql",
+			Old: "            (post_commit_effective_volumes).inputs + case when new.is_source then 0 else new.amount end,\n            (post_commit_effective_volumes).outputs + case when new.is_source then new.amount else 0 end\n", New: "            (post_commit_effective_volumes).inputs::bigint + case when new.is_source then 0 else new.amount end,\n            (post_commit_effective_volumes).outputs + case when new.is_source then new.amount else 0 end\n", Expect: "NUM/sql-function-types"},
 	)
 	addBreakers("C37",
 		Breaker{Name: "sort-without-direction-forces-ascending", File: "internal/query_template.go",
